@@ -2,9 +2,12 @@
 //
 // part "tsan"  (ThreadSanitizer flavour, free-running real threads): T in {2,3,4,8,16} threads,
 //   each constructs its own Stepper (stream t) on ONE shared CoreParams - concurrently, the way
-//   celer-sim's Runner::get_transporter does - and transports its assigned events; all
-//   assignments of 3 events to 2 and to 3 streams are enumerated, larger T get one event per
-//   stream.  Oracles: (1) no ThreadSanitizer report whose stack touches /repo/src;
+//   celer-sim's Runner::get_transporter does (the pattern is modelled here; Runner.cc /
+//   Transporter.cc themselves are not compiled into the harness) - and transports its assigned
+//   events; all assignments of 3 events to 2 and to 3 streams are enumerated, larger T get one
+//   event per stream, once with the identity assignment and once rotated by one (event e on
+//   stream (e+1) mod T).  Variants: see c07_common.hh (recorder / calorimeter / re-indexing by
+//   particle type / by action / field+MSC along-step / StatusChecker).  Oracles: (1) no ThreadSanitizer report whose stack touches /repo/src;
 //   (2) every event's per-track step history equals the serial single-stream reference;
 //   (3) diagnostic / calorimeter tallies equal the serial sums.
 // part "sched" (see below) explores thread schedules exhaustively with a cooperative scheduler.
@@ -125,9 +128,7 @@ static std::vector<RaceReport> read_tsan_reports()
 static void part_tsan(vf::Run& R)
 {
     bool const thorough = R.thorough();
-    std::vector<Variant> variants = {{"rec", false, TrackOrder::none},
-                                     {"calo", true, TrackOrder::init_charge},
-                                     {"recsort", false, TrackOrder::reindex_particle_type}};
+    std::vector<Variant> variants = all_variants();
     unsigned const slots = 4;
     uint64_t outer = 0;
     // (T, assignment) cases: assignment[e] = stream of event e
@@ -155,12 +156,13 @@ static void part_tsan(vf::Run& R)
         }
     }
     for (unsigned T : {4u, 8u, 16u})
-    {
-        std::vector<unsigned> a;
-        for (unsigned e = 0; e < T; ++e)
-            a.push_back(e);
-        cases.push_back({T, a});
-    }
+        for (unsigned rot : {0u, 1u})
+        {
+            std::vector<unsigned> a;
+            for (unsigned e = 0; e < T; ++e)
+                a.push_back((e + rot) % T);
+            cases.push_back({T, a});
+        }
     int const reps = thorough ? 10 : 2;
     std::set<std::string> reported;
     for (auto const& v : variants)
@@ -175,7 +177,7 @@ static void part_tsan(vf::Run& R)
                 return;
             std::string aid;
             for (unsigned s : cs.assign)
-                aid += std::to_string(s);
+                aid += (cs.T > 10 && !aid.empty() ? "." : "") + std::to_string(s);
             std::string cid = fmt("tsan:%s:T=%u:assign=%s", v.name, cs.T, aid.c_str());
             if (!R.want(cid))
                 continue;
